@@ -340,8 +340,13 @@ func (g *cgen) record(t int) *rec {
 	case 9:
 		rc.id = g.pktID()
 		nc := 1 + r.Intn(5)
-		if r.Intn(15) == 0 {
-			nc = pick(r, []int{125, 126, 127, 16381, 16382, 1 + r.Intn(3000)})
+		switch k := r.Intn(1000); {
+		case k < 60:
+			nc = pick(r, []int{124, 125, 126, 127, 1 + r.Intn(300)})
+		case k < 64:
+			nc = 1 + r.Intn(3000)
+		case k < 65 || (g.tier == "thorough" && k < 68):
+			nc = pick(r, []int{16381, 16382})
 		}
 		for i := 0; i < nc; i++ {
 			rc.codes = append(rc.codes, pick(r, []byte{0, 1, 2, 0x80}))
